@@ -65,7 +65,7 @@ def batches(ctx):
     yield b
     uc = [c03.rand_case(rng, 5, 3, 4) for _ in range(300 if quick else 3000)]
     # nested INHERIT chains (where decoding and the INHERIT cells matter) need >= 5 leaves on a caterpillar
-    uc += [c03.rand_case(rng, 6, 4, 4, chain=0.6) for _ in range(1500 if quick else 8000)]
+    uc += [c03.rand_case(rng, 6, 4, 4, chain=0.6, band=0.15) for _ in range(1500 if quick else 8000)]
     b = c03.make_batch("uspfs_exact", uc, "base/ext USPFS: ALL sets against the canonical optimal set")
     b.oracle = oracle_unordered_exact
     b.nontrivial = lambda c, r: bool(r.get("ext")) and len(r["ext"]) >= 2
@@ -132,7 +132,11 @@ def search(ctx):
 
 
 def known_signature(f, kf):
-    return kf["id"] == "F-COHERENCE" and not R.coherent(f.case["costs"], plain=("thl" in f.batch))
+    if kf["id"] != "F-COHERENCE":
+        return False
+    if "uspfs" in f.batch:
+        return not R.ucoherent(f.case["costs"])
+    return not R.coherent(f.case["costs"], plain=("thl" in f.batch))
 
 
 def replay_case(payload):
